@@ -191,6 +191,91 @@ def mixture_preconditions(ctx, rule='C08-R2'):
                   instance=f'{caller}: components capped by distinct values')
 
 
+REDUCERS = {'numpy.min', 'numpy.max', 'numpy.amin', 'numpy.amax', 'numpy.nanmin', 'numpy.nanmax', 'numpy.argmin',
+            'numpy.argmax', 'builtins.min', 'builtins.max', 'numpy.ptp'}
+
+
+def _array_root(t):
+    """The array a derived array (sort / diff / reshape / mask / deepcopy of it) comes from."""
+    for _ in range(40):
+        tg = tag(t)
+        if tg in ('mask', 'vals'):
+            t = t[1]
+        elif tg == 'sub' and tag(t[2]) in ('tuple', 'slice'):
+            t = t[1]
+        elif tg == 'mcall' and t[2] in ('reshape', 'flatten', 'ravel', 'copy', 'squeeze', 'astype'):
+            t = t[1]
+        elif tg == 'call' and t[1] in (('g', 'numpy.diff'), ('g', 'numpy.sort'), ('g', 'copy.deepcopy'),
+                                       ('g', 'numpy.array'), ('g', 'numpy.asarray'), ('g', 'numpy.abs')) and t[2]:
+            t = t[2][0]
+        elif tg == 'phi':
+            roots = {T.key(_array_root(v)) for _, v in t[1]}
+            if len(roots) == 1:
+                t = _array_root(t[1][0][1])
+            else:
+                return t
+            return t
+        else:
+            return t
+    return t
+
+
+def _distinctness_evidence(guard, arr) -> bool:
+    """Does the guard imply that `arr` holds at least two distinct values?
+    (1 != len(unique(arr')))  or  (1 < len(unique(arr')))  with arr' derived from the same array."""
+    root = _array_root(arr)
+    for lit in guard_literals(guard):
+        if tag(lit) != 'cmp' or lit[1] not in ('ne', 'lt', 'le'):
+            continue
+        a, b = lit[2], lit[3]
+        if lit[1] == 'ne' and C(1) not in (a, b):
+            continue
+        if lit[1] == 'lt' and a != C(1):
+            continue
+        if lit[1] == 'le' and a != C(2):
+            continue
+        other = b if T.is_const(a) else a
+        if tag(other) == 'call' and other[1] == ('g', 'builtins.len') and other[2]:
+            u = T.peel(other[2][0])
+            if tag(u) == 'call' and u[1] == ('g', 'numpy.unique') and u[2] and \
+                    T.key(_array_root(u[2][0])) == T.key(root):
+                return True
+    return False
+
+
+def empty_selection_reductions(ctx, rule='C08-R2'):
+    """min / max / argmin ... over a boolean selection `x[cond]` raise ValueError when nothing is selected.
+    Every such site on the processing path needs a dominating guard that makes the selection non-empty
+    (for `d[d > 0]` with d = differences of an array: at least two distinct values in that array)."""
+    from sa.rules.common import processing_path
+    fx = effects(ctx)
+    p = ctx.project
+    reach = processing_path(fx)
+    n = 0
+    for q in sorted(reach):
+        if p.funcs[q].module.name.startswith('ampycloud.plots'):
+            continue
+        for e in fx.own_events(q):
+            if e.kind != 'call' or call_head(e) not in REDUCERS or not e.call[2]:
+                continue
+            arg = e.call[2][0]
+            sel = T.peel(arg)
+            if tag(sel) != 'mask':
+                continue
+            n += 1
+            cond = sel[2]
+            # d[d > 0]  (or d[0 < d]): positive differences of an array
+            pos = tag(cond) == 'cmp' and cond[1] == 'lt' and cond[2] == C(0) and cond[3] == sel[1]
+            ok = pos and _distinctness_evidence(e.guard, sel[1])
+            ctx.check(ok, rule, q, e.node, e.loc(),
+                      f'{call_head(e)} is taken over the selection {T.show(sel, maxlen=120)}, which can be empty '
+                      '(e.g. all values / time stamps identical): NumPy then raises ValueError, not an AmpycloudError. '
+                      'No dominating guard establishes that the underlying array holds two distinct values',
+                      facts={'guard': T.show(e.guard, maxlen=300)},
+                      instance=f'{q.split(".")[-1]}: reduction over a non-empty selection')
+    ctx.floor(rule, 'reductions over boolean selections on the processing path', n, 1)
+
+
 def fluffer_precondition(ctx, rule='C08-R2'):
     fx = effects(ctx)
     p = ctx.project
